@@ -403,7 +403,7 @@ func TestDrv_C09(t *testing.T) {
 	r := newRand(9)
 	streams := 30
 	if thorough() {
-		streams = 150
+		streams = 60
 	}
 	const P = 16
 	trs := make([]*Tracer, P)
@@ -448,6 +448,8 @@ func TestDrv_C09(t *testing.T) {
 				stride := 1
 				if total > 8192 && !thorough() {
 					stride = 1 + total/3000
+				} else if total > 16384 { // thorough: every offset up to 16 KiB, at most ~8000 cut points beyond
+					stride = 1 + total/8000
 				}
 				near := map[int]bool{}
 				for _, f := range frames {
